@@ -2653,6 +2653,12 @@ impl SctpInner {
         trace!("Received SCTP Heartbeat, sending ACK");
 
         let tag = self.remote_verification_tag.load(Ordering::SeqCst);
+        if tag == 0 {
+            // The peer's verification tag is not known yet (its INIT-ACK has
+            // not arrived); an ACK sent now could only carry tag 0 and would
+            // be discarded by the peer anyway.
+            return Ok(());
+        }
         self.send_chunk(CT_HEARTBEAT_ACK, 0, chunk, tag).await?;
         Ok(())
     }
